@@ -528,7 +528,7 @@ fn c01_header_token() {
 
 //@ props=C01,C02 tier=quick timeout=900 mem=10 cap=2
 //@ functions=Packet::to_bytes_internal (payload marker)
-//@ bounds=code: all 256; token length 3 (concrete) with symbolic bytes; payload length 0..3 with symbolic bytes
+//@ bounds=code: all 256; all 4 types; token length 3 (concrete) with symbolic bytes; payload length 0..3 with symbolic bytes
 //@ what=a 0xFF marker and the payload follow the token iff the code is not 0.00 and the payload is non-empty; a 0.00 message carries neither
 #[kani::proof]
 #[kani::unwind(6)]
@@ -537,6 +537,7 @@ fn c01_payload_marker() {
     let mut p = Packet::new();
     let code: u8 = kani::any();
     p.header.code = MessageClass::from(code);
+    p.header.set_type(any_type(kani::any()));
     let tok: [u8; 3] = kani::any();
     p.set_token(tok.to_vec());
     let pay: [u8; 3] = kani::any();
@@ -1014,7 +1015,7 @@ fn c19_content_format() {
 //@ bounds=one concrete option number (Size1), two u32 values (every pair) added through add_option_as, then a third (u16) through set_options_as
 //@ what=the typed setters store exactly the wrapper encodings, element by element and in order; the typed getters return the same numbers; set_options_as replaces
 #[kani::proof]
-#[kani::unwind(8)]
+#[kani::unwind(11)]
 #[kani::stub(core::fmt::write, crate::verif_harness::stub_write)]
 fn c06_typed_accessors() {
     let mut p = Packet::new();
@@ -1075,3 +1076,68 @@ fn c06_typed_accessors() {
     kani::cover!(na == 3, "three-byte value");
     core::mem::forget(p);
 }
+
+// ---------------------------------------------------------------------------------------------
+// C02: direct re-encoding on concrete layouts (the general claim is the composition of C03's
+// field equality with C01's exact image)
+// ---------------------------------------------------------------------------------------------
+macro_rules! c02_reencode {
+    ($name:ident, $n:expr, $build:expr, $expect_len:expr) => {
+        #[kani::proof]
+        #[kani::unwind(7)]
+        #[kani::stub(core::fmt::write, crate::verif_harness::stub_write)]
+        fn $name() {
+            const N: usize = $n;
+            let mut buf: [u8; N] = kani::any();
+            ($build)(&mut buf);
+            match Packet::from_bytes(&buf[..]) {
+                Ok(p) => {
+                    let out = match p.to_bytes_unlimited() {
+                        Ok(o) => o,
+                        Err(_) => { assert!(false, "C02: an accepted datagram re-encodes"); return; }
+                    };
+                    let want: usize = ($expect_len)(&buf);
+                    assert!(out.len() == want, "C02: re-encoding reproduces the datagram (only a lone trailing marker or the content of a 0.00 payload may be dropped)");
+                    let i: usize = kani::any();
+                    if i < want {
+                        assert!(out[i] == buf[i], "C02: re-encoding reproduces the input byte for byte");
+                    }
+                    kani::cover!(true, "accepted and re-encoded");
+                    core::mem::forget(p);
+                }
+                Err(_) => {}
+            }
+        }
+    };
+}
+
+//@ props=C02 tier=quick timeout=1800 mem=24 cap=3 name=c02_reencode_a
+//@ functions=Packet::from_bytes, Packet::to_bytes_unlimited, Packet::to_bytes_internal
+//@ bounds=layout of c03_content_a (version, type, id, code != 0.00, TKL 2, option(delta nibble 0..12, len 1), option(delta 13 + symbolic extended byte, len 2), 0xFF, 1 payload byte) with every free bit symbolic
+//@ what=parse then serialise without limit gives back the 14 input bytes
+c02_reencode!(c02_reencode_a, 14, |b: &mut [u8; 14]| {
+    b[0] = (b[0] & 0xF0) | 2;
+    kani::assume(b[1] != 0);
+    kani::assume((b[6] >> 4) <= 12);
+    b[6] = (b[6] & 0xF0) | 1;
+    b[8] = 0xD2;
+    b[12] = 0xFF;
+}, |_b: &[u8; 14]| 14usize);
+
+//@ props=C02 tier=quick timeout=1800 mem=24 cap=3 name=c02_reencode_marker
+//@ functions=Packet::from_bytes, Packet::to_bytes_unlimited
+//@ bounds=8-byte datagrams: header (any first byte with TKL 1, any code incl. 0.00, any id), 1 token byte, one option (delta nibble 0..12, length 0), then either a lone trailing 0xFF or 0xFF plus one payload byte (symbolic choice via the last byte position)
+//@ what=the only differences re-encoding may make: a trailing marker with nothing after it is dropped, and the payload of a 0.00 message is dropped
+c02_reencode!(c02_reencode_marker, 8, |b: &mut [u8; 8]| {
+    b[0] = (b[0] & 0xF0) | 1;
+    kani::assume((b[5] >> 4) <= 12);
+    b[5] &= 0xF0;
+    // b[6] is either the marker (then b[7] is payload) or another zero-length option followed by a lone marker
+    if kani::any() {
+        b[6] = 0xFF;
+    } else {
+        kani::assume((b[6] >> 4) <= 12);
+        b[6] &= 0xF0;
+        b[7] = 0xFF;
+    }
+}, |b: &[u8; 8]| if b[6] == 0xFF { if b[1] == 0 { 6usize } else { 8 } } else { 7usize });
